@@ -88,6 +88,8 @@ def build_model(rng, idx: int, n_funcs: int):
             f["multi"] = []
             for q in range(k):
                 h, d = pick_pair(rng, rng.random() < 0.5)
+                if rng.random() < 0.3:
+                    d = None  # an entry of the Returns section without type
                 f["multi"].append({"name": f"r{q}", "hint": h, "doc": d})
         funcs.append(f)
     return funcs
@@ -128,7 +130,7 @@ def render_module(funcs, style: str) -> str:
         if f.get("multi"):
             ret = " -> tuple[" + ", ".join(r["hint"] for r in f["multi"]) + "]"
             doc = render_doc(style, f"Summary of {f['name']}.", [(p["name"], p["doc"]) for p in f["params"]], None)
-            doc += "\nReturns\n-------\n" + "".join(f"{r['name']} : {r['doc']}\n    Part.\n" for r in f["multi"])
+            doc += "\nReturns\n-------\n" + "".join((f"{r['name']} : {r['doc']}\n    Part.\n" if r["doc"] else f"{r['name']} : the next part\n    Part without usable type.\n") for r in f["multi"])
         if f["method"]:
             body = "".join("        " + ln + "\n" if ln else "\n" for ln in doc.split("\n")[:-1])
             out.append(f"class Holder_{f['name']}:\n    def {f['name']}(self, {sig}){ret}:\n        \"\"\"{body[8:]}        \"\"\"\n        ...\n\n\n")
@@ -213,9 +215,9 @@ def make_judge(chk: Check):
             enf = [tt.ref_nf(exp)] if exp else []
             if f.get("multi"):
                 enf = [tt.ref_nf(expected_type(x, pref)) for x in f["multi"]]
-                where = f"results:{pref}:" + "".join("e" if x["hint"] == x["doc"] else "d" for x in f["multi"])
+                where = f"results:{pref}:" + "".join("n" if not x["doc"] else "e" if x["hint"] == x["doc"] else "d" for x in f["multi"])
                 r = {"hint": [x["hint"] for x in f["multi"]], "doc": [x["doc"] for x in f["multi"]]}
-                if any(x["hint"] != x["doc"] for x in f["multi"]):
+                if any(x["doc"] and x["hint"] != x["doc"] for x in f["multi"]):
                     exp_result_warn.add(fid)
                 if got != enf:
                     viols.append(Viol("wrong-type-source", where, {"function": f["name"], "hint": r["hint"], "docstring_type": r["doc"], "stub": [x.type.render() if x.type else None for x in d.results], "style": style}))
